@@ -37,6 +37,16 @@ Theorem C02_hit_lat_overlap : forall a b, hit a b = true ->
 Proof. exact hit_lat. Qed.
 Print Assumptions C02_hit_lat_overlap.
 
+(* what a hit means, independently of the code's formulas: the two closed segments are not
+   parallel and share a point (rational coordinates xn/dv, yn/dv); collinear overlaps do not
+   count, as documented *)
+Theorem C02_hit_spec : forall s1 s2,
+  hit s1 s2 = true <->
+  nonparallel s1 s2 /\
+  exists xn yn dv, 0 < dv /\ on_seg_q s1 xn yn dv /\ on_seg_q s2 xn yn dv.
+Proof. exact hit_spec. Qed.
+Print Assumptions C02_hit_spec.
+
 (* hence, for do_edges_intersect as the library runs it: *)
 Theorem C02_sweep_brute : forall ea eb,
   sweep hit ea eb = Ok (existsb (fun a => existsb (fun b => hit a b) eb) ea).
@@ -76,6 +86,16 @@ Theorem C02_contains_edge_truth : forall w a b,
   contains_shape w a b = Ok (negb (edge_part a b) && contains_coordinate w a (first_pt b)).
 Proof. exact contains_edge_truth. Qed.
 Print Assumptions C02_contains_edge_truth.
+
+(* soundness half of "equals planar set truth": a True answer always comes with a point
+   (rational coordinates) that belongs to both shapes' closed sets -- the point itself / a
+   segment of the path / a ring edge or a point accepted by the library's membership test (C01).
+   The converse is false of the code (D5, below) and otherwise not claimed. *)
+Theorem C02_intersects_sound : forall w a b, valid a -> valid b ->
+  intersects_shape w a b = Ok true ->
+  exists xn yn dv, 0 < dv /\ inset w a xn yn dv /\ inset w b xn yn dv.
+Proof. exact intersects_sound. Qed.
+Print Assumptions C02_intersects_sound.
 
 (* with a point, every test is C01's membership / vertex membership / equality *)
 Theorem C02_point_rel_spec : forall w,
